@@ -25,39 +25,39 @@ PROPS["C16"] = dict(
   jobs=[
     # longest queries first (scheduling)
     dict(name="c16-perm-hex2", harness="C16_hex.cpp", entries=["harness_c16_perm"], units=HEXU, unwind=150, checks="none", object_bits=13,
-         shards={"quick": [{0: 1, 1: 0, 2: 4 * r, 3: 4} for r in (0, 2, 4)],
+         shards={"quick": [{0: 1, 1: 0, 2: 8 * r + h, 3: 2} for r in (0, 2, 4) for h in (0, 1)],
                  "thorough": [{0: 1, 1: 0, 2: ch, 3: 4} for ch in range(24)]},
          timeout={"quick": 400, "thorough": 1200}, mem_gb=5,
          bounds="second hexahedron of the two-hex base (first cell present, shared face pre-exists with the other halfface in use): add_cell(permuted list, true); quick: rotations 0,2,4 x "
                 "{identity,(0 1),(0 2),(2 3)} (12 permutations), thorough: 6 rotations x 16 (identity + all 15 transpositions) = 96; same assertions as c16-perm-hex for the new cell"),
     # (4) add_cell(8 vertices)
     dict(name="c16-verts", harness="C16_hex.cpp", entries=["harness_c16_verts"], units=HEXU, unwind=150, checks="none", object_bits=13,
-         shards={"quick": [{0: 1, 1: 1, 2: ch, 3: 2} for ch in range(0, 13, 2)],
+         shards={"quick": [{0: 1, 1: 1, 2: idx, 3: 1} for idx in (0, 5, 10, 15, 16, 21, 24, 25)],
                  "thorough": [{0: g, 1: 1, 2: ch, 3: 2} for g in range(6) for ch in range(13)] + [{0: 1, 1: 0, 2: ch, 3: 2} for ch in range(13)]},
          timeout={"quick": 400, "thorough": 1200}, mem_gb=4,
          bounds="add_cell(8 vertices): first hex on an empty 12-vertex mesh, second hex glued onto face g of the first such that the shared face is the second hex's local face L (XF..ZB) in "
-                "rotation rot; symbolic selector over 2 (L,rot) cases per query; quick: g = XB, topologyCheck on, rot in {0,1} for every L + two cases where all six faces pre-exist (built by add_face); "
+                "rotation rot; symbolic selector over the (L,rot) cases of a query (thorough: 2 per query; quick: 1 per query, i.e. the selector is fixed by the shard); quick: g = XB, topologyCheck on, (L,rot) in {(0,0),(1,1),(2,2),(3,3),(4,0),(5,1)} + two cases where all six faces pre-exist (built by add_face); "
                 "thorough: every g, L, rot with check on, g = XB with check off. Asserted: exactly 5 faces / 8 edges created, no duplicate faces or edges, shared face reused at position L, "
                 + _C16_ORACLE + ", hex_vertices == documented pattern of the input up to a rotation about the first axis"),
     # (5) inherited operations
     dict(name="c16-ops", harness="C16_hex.cpp", entries=["harness_c16_ops"], units=HEXU, unwind=150, checks="none", object_bits=13,
-         shards={"quick": [{0: 0, 1: ch, 2: 0, 3: 3} for ch in range(3)],
+         shards={"quick": [{0: 0, 1: ch, 2: 0, 3: 2} for ch in range(4)],
                  "thorough": [{0: md, 1: ch, 2: gc, 3: 3} for md in range(4) for gc in (0, 1) for ch in range(4)]},
          timeout={"quick": 400, "thorough": 1200}, mem_gb=4,
-         bounds="two-hex base + ONE inherited operation (symbolic selector, 3 per query) from {delete_cell 0/1, delete_face shared/bottom/side, swap_cell_indices(0,1), swap_face_indices(1,10)/(0,5), "
-                "delete_edge(0), delete_vertex(0), swap_edge_indices(0,19), swap_vertex_indices(0,11)}; quick: first 9, immediate deletion; thorough: all 12 x 4 deletion modes x with/without collect_garbage. "
+         bounds="two-hex base + ONE inherited operation (symbolic selector, 2 per query in quick, 3 in thorough) from {delete_cell 0/1, delete_face shared/bottom/side, swap_cell_indices(0,1), swap_face_indices(1,10)/(0,5), "
+                "delete_edge(0), delete_vertex(0), swap_edge_indices(0,19), swap_vertex_indices(0,11)}; quick: first 8, immediate deletion; thorough: all 12 x 4 deletion modes x with/without collect_garbage. "
                 "Asserted for the surviving entities: face valence 4, cell valence 6, " + _C16_ORACLE),
     # (2) permuted valid halfface lists
     dict(name="c16-perm-hex", harness="C16_hex.cpp", entries=["harness_c16_perm"], units=HEXU, unwind=150, checks="none", object_bits=13,
-         shards={"quick": [{0: 0, 1: 0, 2: 4 * r, 3: 4} for r in range(6)],
+         shards={"quick": [{0: 0, 1: 0, 2: 8 * r + h, 3: 2} for r in range(6) for h in (0, 1)],
                  "thorough": [{0: 0, 1: 1, 2: ch, 3: 4} for ch in range(180)]},
          timeout={"quick": 400, "thorough": 1200}, mem_gb=4,
-         bounds="add_cell(permutation of the six halffaces of one hexahedron on 8 vertices / 6 bare faces, topologyCheck=true); symbolic selector over 4 permutations per query; "
+         bounds="add_cell(permutation of the six halffaces of one hexahedron on 8 vertices / 6 bare faces, topologyCheck=true); symbolic selector over the permutations of a query (2 per query in quick, 4 in thorough); "
                 "quick: 24 permutations = 6 rotations of the B_HEX list x {identity, (0 1), (0 2), (2 3)}; thorough: all 720 permutations. Accepted => one cell appended holding exactly the "
                 "given halffaces, rest of the mesh unchanged, and " + _C16_ORACLE + "; rejected => snapshot unchanged"),
     # (1) bases built by the hexahedral kernel; every oracle part
     dict(name="c16-base", harness="C16_hex.cpp", entries=["harness_c16_base"], units=HEXU, unwind=150, checks="none", object_bits=13,
-         shards={"quick": _c16_base_shards(_HB_HEX, 12, 12, 12, True) + _c16_base_shards(_HB_HEX2, 22, 11, 22, True) + _c16_base_shards(_HB_HEX2_VERTS, 22, 11, 22, True),
+         shards={"quick": _c16_base_shards(_HB_HEX, 12, 12, 12, True) + _c16_base_shards(_HB_HEX2, 22, 6, 22, False) + _c16_base_shards(_HB_HEX2_VERTS, 22, 6, 22, False),
                  "thorough": _c16_base_shards(_HB_HEX, 12, 12, 12, True) + _c16_base_shards(_HB_HEX2, 22, 11, 22, True) + _c16_base_shards(_HB_HEX2_VERTS, 22, 11, 22, True)},
          timeout={"quick": 400, "thorough": 1200}, mem_gb=3,
          bounds="bases: 1 hex and 2 hexes sharing a face built with add_cell(6 halffaces in NON-convention order, topologyCheck=true) (B_HEX/B_HEX2 layout), 2 hexes built with "
